@@ -95,13 +95,31 @@ class Cache:
         dtype and shape) and its length, such that different argument
         lists cannot result in the same sequence of hashed bytes.
         """
-        if isinstance(arg, np.ndarray):
-            self._update_hash_chunk(b"ndarray", arg.dtype.str.encode("utf-8"))
+        if isinstance(arg, np.ma.MaskedArray):
+            # the mask is part of the value
+            self._update_hash_chunk(b"masked", (2).to_bytes(8, "little"))
+            self._update_hash(np.asarray(arg.data))
+            self._update_hash(np.ma.getmaskarray(arg))
+        elif isinstance(arg, np.ndarray):
+            dtype = arg.dtype.str
+            if arg.dtype.names is not None:
+                # dtype.str does not tell structured dtypes apart
+                dtype += str(arg.dtype.descr)
+            self._update_hash_chunk(b"ndarray", dtype.encode("utf-8"))
             data = np.ascontiguousarray(arg).reshape(-1).view(np.uint8)
             self._update_hash_chunk(str(arg.shape).encode("utf-8"), data)
-        elif isinstance(arg, list):
-            self._update_hash_chunk(b"list", len(arg).to_bytes(8, "little"))
+        elif isinstance(arg, (list, tuple)):
+            # str() of a container abbreviates large arrays: hash the items
+            kind = b"list" if isinstance(arg, list) else b"tuple"
+            self._update_hash_chunk(kind, len(arg).to_bytes(8, "little"))
             [self._update_hash(a) for a in arg]
+        elif isinstance(arg, dict):
+            keys = sorted(arg.keys(), key=str)
+            self._update_hash_chunk(b"dict",
+                                    (2 * len(keys)).to_bytes(8, "little"))
+            for key in keys:
+                self._update_hash(key)
+                self._update_hash(arg[key])
         else:
             self._update_hash_chunk(type(arg).__name__.encode("utf-8"),
                                     str(arg).encode('utf-8'))
